@@ -41,7 +41,65 @@ class _Continue(Exception):
     pass
 
 
+_PURE_METHODS = {"join", "get", "items", "keys", "values", "upper", "lower", "encode", "decode", "replace", "split", "rsplit", "partition", "rpartition", "strip", "lstrip", "rstrip",
+                 "startswith", "endswith", "isdigit", "isnumeric", "find", "rfind", "count", "index", "hex", "format", "zfill", "removeprefix", "removesuffix", "copy"}
 _PURE_BUILTINS = {"int": int, "float": float, "str": str, "len": len, "bool": bool, "min": min, "max": max, "abs": abs, "round": round, "list": list, "tuple": tuple, "bytes": bytes}
+
+
+class Bound:
+    """`T.decode` / `T.encode` of an elementary type taken as a value (unpack_func = TYPES[x].decode)."""
+
+    def __init__(self, ci, name):
+        self.ci, self.name = ci, name
+
+
+def codec_apply(ctx, ci, meth, args):
+    """decode/encode of an elementary fixed-format type on constants; UNKNOWN for anything else."""
+    import struct
+
+    fmt = ctx.folder.elementary_format(ci)
+    dc, _ = ci.lookup(meth)
+    ec, _ = ci.lookup("_" + meth)
+    if not fmt or dc is None or dc.name != "DataType" or ec is None or ec.name != "ElementaryDataType" or len(args) != 1:
+        return UNKNOWN
+    size = struct.calcsize(fmt)
+    if meth == "decode":
+        data = args[0]
+        if isinstance(data, Stream):
+            chunk = data.read(size)
+        elif isinstance(data, (bytes, bytearray)):
+            chunk = bytes(data[:size])
+        else:
+            return UNKNOWN
+        if len(chunk) < size:
+            raise _Raise("BufferEmptyError" if not chunk else "DataError")
+        return struct.unpack(fmt, chunk)[0]
+    if isinstance(args[0], (int, float)) and not isinstance(args[0], bool):
+        try:
+            return struct.pack(fmt, args[0])
+        except struct.error:
+            raise _Raise("DataError")
+    raise _Raise("DataError")
+
+
+class Stream:
+    """Witness for io.BytesIO."""
+
+    def __init__(self, data=b""):
+        self.data, self.pos = bytes(data), 0
+
+    def read(self, n=-1):
+        if n is None or n < 0:
+            n = len(self.data) - self.pos
+        chunk = self.data[self.pos:self.pos + n]
+        self.pos += len(chunk)
+        return chunk
+
+    def tell(self):
+        return self.pos
+
+    def getvalue(self):
+        return self.data
 
 
 class Obj:
@@ -66,6 +124,10 @@ class Interp:
             if e.attr in o.__dict__:
                 return o.__dict__[e.attr]
             raise _Unknown(f"attribute {e.value.id}.{e.attr} has no witness value")
+        if isinstance(e, ast.Attribute) and e.attr in ("decode", "encode") and not self._mentions_obj(e.value, env):
+            recv = self.ctx.folder.eval(e.value, self.module, env=env)
+            if isinstance(recv, ClassRef):
+                return Bound(recv.ci, e.attr)
         if self._mentions_obj(e, env):
             v = UNKNOWN
         else:
@@ -116,6 +178,63 @@ class Interp:
                             if p_ not in env2:
                                 env2[p_] = self.ev(d_, {}, depth)
                         return self.call(fi.node, env2, depth + 1)
+        if isinstance(e, ast.Call) and isinstance(e.func, ast.Name) and e.func.id == "BytesIO" and len(e.args) <= 1 and "BytesIO" not in env:
+            arg = self.ev(e.args[0], env, depth) if e.args else b""
+            if isinstance(arg, (bytes, bytearray)):
+                return Stream(arg)
+        if isinstance(e, ast.Call) and isinstance(e.func, ast.Name) and isinstance(env.get(e.func.id), Bound):
+            b_ = env[e.func.id]
+            r_ = codec_apply(self.ctx, b_.ci, b_.name, [self.ev(a, env, depth) for a in e.args])
+            if r_ is not UNKNOWN:
+                return r_
+        if isinstance(e, ast.Call) and isinstance(e.func, ast.Attribute):
+            if isinstance(e.func.value, ast.Name) and isinstance(env.get(e.func.value.id), Stream) and e.func.attr in ("read", "tell", "getvalue"):
+                args = [self.ev(a, env, depth) for a in e.args]
+                return getattr(env[e.func.value.id], e.func.attr)(*args)
+            if e.func.attr in ("decode", "encode") and len(e.args) == 1 and not e.keywords:
+                recv = self.ctx.folder.eval(e.func.value, self.module, env={k: v for k, v in env.items() if not isinstance(v, (Stream, Obj, Bound))})
+                if isinstance(recv, ClassRef):
+                    arg = self.ev(e.args[0], env, depth)
+                    r_ = codec_apply(self.ctx, recv.ci, e.func.attr, [arg])
+                    if r_ is not UNKNOWN:
+                        return r_
+        if isinstance(e, ast.Name) and isinstance(env.get(e.id), (Stream, Bound)):
+            return env[e.id]
+        if isinstance(e, ast.Call) and isinstance(e.func, (ast.Name, ast.Attribute)) and not self._mentions_obj(e.func, env):
+            callee = self.ctx.folder.eval(e.func, self.module, env=env)
+            if isinstance(callee, ClassRef) and not any(isinstance(a, ast.Starred) for a in e.args):
+                return Instance(callee.ci, [self.ev(a, env, depth) for a in e.args], {k.arg: self.ev(k.value, env, depth) for k in e.keywords if k.arg})
+        if isinstance(e, (ast.ListComp, ast.GeneratorExp, ast.SetComp)):
+            out = []
+
+            def rec(gens, env_):
+                if not gens:
+                    out.append(self.ev(e.elt, env_, depth))
+                    return
+                g_ = gens[0]
+                seq = self.ev(g_.iter, env_, depth)
+                if isinstance(seq, dict):
+                    seq = list(seq)
+                if not isinstance(seq, (list, tuple, str, bytes, range)) or len(seq) > 4096:
+                    raise _Unknown("comprehension over a non-constant sequence")
+                for item in seq:
+                    env2 = dict(env_)
+                    self.store(g_.target, item, env2, depth)
+                    if all(self.ev(c_, env2, depth) for c_ in g_.ifs):
+                        rec(gens[1:], env2)
+
+            rec(list(e.generators), env)
+            return out if not isinstance(e, ast.SetComp) else set(out)
+        if isinstance(e, ast.Call) and isinstance(e.func, ast.Attribute) and not e.keywords and e.func.attr in _PURE_METHODS:
+            recv_ = None
+            try:
+                recv_ = self.ev(e.func.value, env, depth)
+            except _Unknown:
+                recv_ = None
+            if isinstance(recv_, (str, bytes, list, tuple, dict)) and not isinstance(recv_, bool):
+                args = [self.ev(a, env, depth) for a in e.args]
+                if e.func.attr in ("append", "extend", "update", "pop", "insert", "clear", "setdefault") or all(not isinstance(a, (Obj, Stream, Bound)) for a in args):
+                    return getattr(recv_, e.func.attr)(*args)
         if isinstance(e, ast.Call) and isinstance(e.func, ast.Name) and e.func.id == "isinstance" and len(e.args) == 2 and "isinstance" not in env:
             kinds = {"str": (str,), "bytes": (bytes,), "bytearray": (bytearray,), "int": (int,), "float": (float,), "bool": (bool,), "list": (list,), "tuple": (tuple,), "dict": (dict,),
                      "set": (set, frozenset), "Sequence": (list, tuple, str, bytes, range), "Mapping": (dict,), "Iterable": (list, tuple, str, bytes, dict, set, range)}
@@ -154,7 +273,7 @@ class Interp:
 
     @staticmethod
     def _mentions_obj(e, env):
-        return any(isinstance(x, ast.Name) and isinstance(env.get(x.id), Obj) for x in ast.walk(e))
+        return any(isinstance(x, ast.Name) and isinstance(env.get(x.id), (Obj, Stream, Bound)) for x in ast.walk(e))
 
     # ------------------------------------------------------------------ statements
     def call(self, func, env, depth=0):
